@@ -18,6 +18,7 @@
 import YashModel.Pipe.Progress
 import YashModel.Pipe.FdLemmas
 import YashModel.Pipe.FileLemmas
+import YashModel.Pipe.TwoWritersLemmas
 namespace YashModel.Pipe
 
 variable {α : Type}
@@ -369,6 +370,31 @@ theorem read_line_chunking_irrelevant (raw : Bool) (fuel : Nat) (input acc : Lis
 theorem short_reads_collect_prefix (need : Nat) (input : List UInt8) (shorts : List Nat) :
     (gather need input shorts).1 = input.take need ∧ (gather need input shorts).2.1 = input.drop need :=
   gatherF_spec need need input shorts (Nat.le_refl _)
+
+/-! ### two writers on one pipe -/
+
+/-- ★ Two writers, one reader, one pipe — every pair of payloads, every interleaving of the three
+    processes, every accepted-prefix length and read size at every step (so whatever capacity,
+    PIPE_BUF atomicity or blocking allow): at every moment the bytes of each writer that the reader
+    has received, followed by those still buffered, followed by those still unsent, are that writer's
+    payload — complete, once, in that writer's order; and once both writers have nothing left and
+    the buffer is empty the reader holds exactly the two payloads, merged. -/
+theorem two_writers_conservation (pa pb : List α) (acts : List Act2) :
+    let s := (Sys2.init pa pb).run acts
+    proj true (s.received ++ s.content) ++ s.unsentA = pa ∧
+    proj false (s.received ++ s.content) ++ s.unsentB = pb ∧
+    (s.unsentA = [] → s.unsentB = [] → s.content = [] →
+      proj true s.received = pa ∧ proj false s.received = pb ∧ s.received.length = pa.length + pb.length) := by
+  have h := inv2_run pa pb (Sys2.init pa pb) acts (by simp [Inv2, Sys2.init, proj])
+  obtain ⟨ha, hb⟩ := h
+  refine ⟨ha, hb, fun ea eb ec => ?_⟩
+  rw [ea, ec] at ha
+  rw [eb, ec] at hb
+  simp only [List.append_nil] at ha hb
+  refine ⟨ha, hb, ?_⟩
+  have := length_proj ((Sys2.init pa pb).run acts).received
+  rw [ha, hb] at this
+  omega
 
 /-! ### descriptor choreography: the child really is connected to the pipe, whatever is open -/
 
